@@ -269,12 +269,26 @@ def extremes_campaign(sess, rng, count, kinds=KINDS, ops=("rate", "win", "draw",
         n = rng.choice([2, 2, 3, 4, 8])
         size = rng.choice([1, 2, 2, 4, 8, 16])
         sizes = [size if rng.random() < 0.7 else rng.choice([1, 2, 3, 16]) for _i in range(n)]
+        scenario = rng.random()
+        if scenario < 0.12:      # largest exponent of the domain: big teams at opposite ends, hardly any uncertainty
+            n = rng.choice([2, 2, 3])
+            sizes = [rng.choice([13, 14, 16, 16]) for _i in range(n)]
+        elif scenario < 0.24:    # one solo player holds nearly all the variance of a 6-8 team game of equals (raw delta above 1)
+            n = rng.choice([6, 7, 8])
+            sizes = [1] * n
         teams = []
         tot = []
-        for sz in sizes:
+        for ti, sz in enumerate(sizes):
             pat = rng.choice(["hi", "lo", "zero", "mixed", "hi", "lo"])
             u = rng.choice([1.0, 1.0, 0.95, 0.8])
             sgc = rng.choice([1e-4, 1e-4, 0.1, 1.0, 10.0, 0.0 if tau > 0 else 1e-4])
+            if scenario < 0.12:
+                pat = "hi" if ti % 2 == 0 else "lo"
+                u = rng.choice([1.0, 1.0, 0.97])
+                sgc = rng.choice([1e-4, 0.01, 0.05, 0.1])
+            elif scenario < 0.24:
+                pat = "zero"
+                sgc = rng.choice([8.0, 10.0, 10.0]) if ti == 0 else rng.choice([1e-4, 0.01, 0.1])
             team = []
             for _j in range(sz):
                 mu = {"hi": 20 * beta * u, "lo": -20 * beta * u, "zero": 0.0, "mixed": rng.choice([-20, 20, 0]) * beta}[pat]
@@ -287,10 +301,16 @@ def extremes_campaign(sess, rng, count, kinds=KINDS, ops=("rate", "win", "draw",
         for pos, i in enumerate(order):
             fav[i] = pos
         outcome = rng.choice(["favourite", "upset", "all_tied", "random"])
+        if 0.12 <= scenario < 0.24:
+            outcome = "dominant_last"
         if outcome == "favourite":
             ranks = fav
         elif outcome == "upset":
             ranks = [n - 1 - r for r in fav]
+        elif outcome == "dominant_last":
+            ranks = [n - 1] + [i for i in range(n - 1)]
+            if rng.random() < 0.3:
+                ranks = [n - 2] + [i for i in range(n - 2)] + [n - 2]      # tied for the bottom
         elif outcome == "all_tied":
             ranks = [0] * n
         else:
@@ -481,7 +501,7 @@ def perm_groups(sess, rng, count, prop, ops=("rate",), kinds=KINDS, max_teams=6,
         n = len(shape)
         vals = random_vals(rng, shape, beta, mh.m.tau > 0)
         cls = weak_order(rng, n)
-        okw, _ = encode_order(rng, cls)
+        okw = rng.choice(all_encodings(rng, cls)) if rng.random() < 0.6 else encode_order(rng, cls)[0]
         sel = "ranks" if "ranks" in okw else "scores" if "scores" in okw else None
         ovec = okw.get(sel) if sel else None
         if n <= exhaustive_upto:
@@ -1423,3 +1443,44 @@ def foreign_pairs(sess, rng):
                     sess.rate(mh, teams)
                 else:
                     sess.predict(op, mh, teams)
+
+
+def tm_regimes(sess, rng, count, kinds=("TMF", "TMP", "BTF", "BTP", "PL")):
+    """Stratified over the kernel regimes: two- and three-team games whose mismatch (mu_i - mu_q) / c_iq is drawn
+    uniformly from [0, 9.5] (around and beyond every guard), under win, loss and draw, several kappa."""
+    for ci in range(count):
+        kind = kinds[ci % len(kinds)] if rng.random() < 0.4 else rng.choice(["TMF", "TMP"])
+        beta = BETA0 * rng.choice([1.0, 1.0, 0.1, 10.0])
+        kappa = rng.choice([1e-4, 1e-4, 1e-3, 1e-2, 1e-6])
+        if kind in ("TMF", "TMP"):
+            kappa = min(kappa, 1e-2 * math.sqrt(2.0) * beta)
+        tau = rng.choice([0.0, beta / 50.0])
+        sess.reset()
+        mh = sess.model(kind, mu=6 * beta, sigma=2 * beta, beta=beta, kappa=kappa, tau=tau, limit_sigma=rng.random() < 0.15)
+        x = rng.uniform(0.0, 9.5)
+        s1 = [rng.uniform(0.05, 1.5) * beta for _ in range(rng.choice([1, 1, 2]))]
+        s2 = [rng.uniform(0.05, 1.5) * beta for _ in range(rng.choice([1, 1, 2]))]
+        c = math.sqrt(sum(s * s + tau * tau for s in s1) + sum(s * s + tau * tau for s in s2) + 2 * beta * beta)
+        if kind == "TMP":
+            c *= 2.0
+        gap = x * c
+        if gap > 38 * beta:
+            gap = 38 * beta
+        base1 = rng.uniform(-19 * beta, 19 * beta - gap)
+        m1 = [(base1 + gap) / len(s1)] * len(s1)
+        m2 = [base1 / len(s2)] * len(s2)
+        if any(abs(m) > 20 * beta for m in m1 + m2):
+            m1 = [m / 2 for m in m1]
+            m2 = [m / 2 for m in m2]
+        t1 = [mh.m.rating(m, s) for m, s in zip(m1, s1)]
+        t2 = [mh.m.rating(m, s) for m, s in zip(m2, s2)]
+        teams = [t1, t2]
+        if rng.random() < 0.3:
+            teams.append([mh.m.rating(rng.uniform(-10, 10) * beta, rng.uniform(0.1, 2) * beta)])
+        n = len(teams)
+        outcome = rng.choice(["win", "loss", "draw", "draw"])
+        ranks = {"win": [0, 1], "loss": [1, 0], "draw": [0, 0]}[outcome] + ([rng.choice([0, 1, 2])] if n == 3 else [])
+        if rng.random() < 0.5:
+            teams = teams[::-1]
+            ranks = ranks[::-1]
+        sess.rate(mh, teams, ranks=ranks)
